@@ -4,13 +4,17 @@ import json, os, sys
 V = os.path.dirname(os.path.dirname(os.path.abspath(__file__)))
 sys.path.insert(0, V)
 from analysis import build, canon
-adts, fns = {}, {}
+adts, fns, hashes = {}, {}, {}
 for cfg in build.thorough_configs():
     fp, _ = build.build_facts(cfg)
     raw = json.load(open(fp))
     s = canon.shapes_of(raw)
     adts.update(s["adts"]); fns.update(s["fns"])
+    for p_, b_ in raw["bodies"].items():
+        h = canon.body_hash(b_)
+        if h not in hashes.setdefault(p_, []):
+            hashes[p_].append(h)
 out = os.path.join(V, "rules", "spec", "known_shapes.json")
 head = os.popen("git -C /repo rev-parse --short HEAD").read().strip()
-json.dump({"reference_tree": head, "adts": adts, "fns": fns}, open(out, "w"), indent=0)
+json.dump({"reference_tree": head, "adts": adts, "fns": fns, "hashes": hashes}, open(out, "w"), indent=0)
 print(len(adts), "structs,", len(fns), "functions ->", out)
